@@ -330,7 +330,7 @@ def run_monitored(mol, links_ff, b):
         return 'degenerate', {'error': repr(e)}
     _MON['log'] = []
     try:
-        real = DL.DoLinks().run_molecule(mol)
+        real = util.shared(DL.DoLinks).run_molecule(mol)
     except Exception as e:
         import traceback
         _MON['log'] = None
@@ -404,11 +404,11 @@ def build_cg(params):
     mol, truth = atomistic.build_peptide(ff_from, seq, rnd, mods=mods, coords=True)
     system = System(force_field=ff_from)
     system.add_molecule(mol)
-    RepairGraph(include_graph=False).run_system(system)
-    CanonicalizeModifications().run_system(system)
+    util.shared(RepairGraph, include_graph=False).run_system(system)
+    util.shared(CanonicalizeModifications).run_system(system)
     ss = ''.join(rnd.choice('HHHECTSGB') if rnd.random() < 0.5 else c for c in rnd.choice(['H', 'E', 'C']) * len(seq))
     AnnotateResidues(attribute='aasecstruct', sequence=ss).run_system(system)
-    AnnotateMartiniSecondaryStructures().run_system(system)
+    util.shared(AnnotateMartiniSecondaryStructures).run_system(system)
     vermouth.SetMoleculeMeta(extdih=params['extdih']).run_system(system)
     vermouth.SetMoleculeMeta(scfix=params['scfix']).run_system(system)
     vermouth.SetMoleculeMeta(idr=params['idr']).run_system(system)
